@@ -71,7 +71,7 @@ type Setter = Option<Box<dyn FnOnce(Pipeline) -> Pipeline>>;
 
 /// `pre_in` (configures the pipeline's stdin) may be applied to the leftmost sub-pipeline *before* composing,
 /// `pre_out` (its stdout) to the rightmost sub-pipeline: what was configured must survive the composition.
-fn compose(rng: &mut Rng, mut execs: Vec<Exec>, pre_in: &mut Setter, pre_out: &mut Setter) -> (Pipeline, String) {
+fn compose(rng: &mut Rng, mut execs: Vec<Exec>, pre_in: &mut Setter, pre_out: &mut Setter, pre_err: &mut Setter) -> (Pipeline, String) {
     let n = execs.len();
     match rng.below(4) {
         0 => (Pipeline::from_exec_iter(execs), "from_exec_iter".into()),
@@ -94,6 +94,13 @@ fn compose(rng: &mut Rng, mut execs: Vec<Exec>, pre_in: &mut Setter, pre_out: &m
                 if let Some(f) = pre_in.take() {
                     p = f(p);
                     shape.push_str("<in");
+                }
+            }
+            // the shared stderr sink configured on the leftmost sub-pipeline must cover the commands appended later too
+            if !rest.is_empty() && rng.chance(600) {
+                if let Some(f) = pre_err.take() {
+                    p = f(p);
+                    shape.push_str("<err");
                 }
             }
             let mut rest = rest.into_iter().collect::<Vec<_>>();
@@ -221,15 +228,20 @@ fn c13_case(ctx: &mut Ctx, rng: &mut Rng, i: u64) {
         "pipe" if term == "popen" => pre_out = Some(Box::new(|p: Pipeline| p.stdout(Redirection::Pipe))),
         _ => {}
     }
-    let (mut pl, shape) = compose(rng, execs, &mut pre_in, &mut pre_out);
+    let mut pre_err: Setter = None;
+    if stderr_kind == "file" {
+        let f = std::fs::File::create(&err_path).unwrap();
+        pre_err = Some(Box::new(move |p: Pipeline| p.stderr_to(f)));
+    }
+    let (mut pl, shape) = compose(rng, execs, &mut pre_in, &mut pre_out, &mut pre_err);
     if let Some(f) = pre_in.take() {
         pl = f(pl);
     }
     if let Some(f) = pre_out.take() {
         pl = f(pl);
     }
-    if stderr_kind == "file" {
-        pl = pl.stderr_to(std::fs::File::create(&err_path).unwrap());
+    if let Some(f) = pre_err.take() {
+        pl = f(pl);
     }
     let dbg = format!("{:?}", pl);
     let mut got_out: Option<Vec<u8>> = None;
@@ -528,9 +540,66 @@ fn c14_case(ctx: &mut Ctx, n: usize, kfail: usize, stdin_kind: &str, term: &str,
     run::end_case();
 }
 
+/// The first command only consumes (it writes nothing to its stdout) and the last command closes its stdout at once:
+/// the pipeline's input data must still reach the first command in full ("the configured input reaches the first
+/// command" for all data sizes), also when capture()/communicate() see end-of-file on the output long before.
+fn c13_sink_case(ctx: &mut Ctx, rng: &mut Rng, _i: u64) {
+    run::begin_case();
+    let dir = ctx.scratch("c13s");
+    let rep = dir.join("first.rep");
+    let size = *rng.pick(&[0usize, 1, 4096, 65536, 65537, 200_000, 1_000_000, 3_000_000]) + rng.below(3) as usize;
+    let seed = rng.next() >> 1;
+    let data = pat_vec(seed, 0, 0, size);
+    let first = Exec::cmd(&ctx.vchild).args(&["io", "1", &format!("s{},R,x0", rng.range(0, 20))]).arg(&rep);
+    let mut cmds = vec![first];
+    for _ in 0..rng.range(1, 3) {
+        cmds.push(Exec::cmd(&ctx.vchild).args(&["exit", "0"]));
+    }
+    let pl = Pipeline::from_exec_iter(cmds).stdin(data.clone());
+    let via_capture = rng.chance(600);
+    let m = run::monitored(|| -> Result<(), String> {
+        if via_capture {
+            pl.capture().map(|_| ()).map_err(|e| e.to_string())
+        } else {
+            let mut c = pl.communicate().map_err(|e| e.to_string())?;
+            c.read().map(|_| ()).map_err(|e| e.to_string())
+        }
+    });
+    let evs = m.events();
+    for p in spawn::forked_pids(&evs) {
+        spawn::wait_dead(p, 5000);
+    }
+    ctx.count("pipelines", 1);
+    ctx.count("pipelines_whose_first_command_only_consumes", 1);
+    ctx.distinct(&format!("sink|{}|{}", size, via_capture));
+    let w = J::obj().set("input_len", J::i(size as i64)).set("terminator", J::s(if via_capture { "capture" } else { "communicate" })).set("result", J::s(&format!("{:?}", m.result))).set("first_command_report", J::arr_s(&crate::kid::read_lines(&rep)));
+    if let Some(c) = &m.cert {
+        ctx.violation("C13/hang/sink-first-command", "the pipeline deadlocked", w.set("certificate", run::cert_json(c)));
+    } else if let Some(Ok(())) = m.result {
+        let lines = crate::kid::read_lines(&rep);
+        if let Some(l) = lines.iter().rev().find(|l| l.starts_with("in ")) {
+            let p: Vec<&str> = l.split(' ').collect();
+            let (len, h): (u64, u64) = (p[1].parse().unwrap_or(0), p[2].parse().unwrap_or(0));
+            ctx.count("input_bytes_verified_at_first_command", len as i64);
+            if len != size as u64 || h != crate::common::fnv(&data) {
+                ctx.violation(
+                    "C13/input-truncated-at-first-command",
+                    &format!("the pipeline reported success but its first command received {} of the {} input bytes", len, size),
+                    w,
+                );
+            }
+        }
+    } else if m.panic.is_some() {
+        ctx.violation("C13/panic/sink-first-command", "panic", w);
+    }
+    run::end_case();
+}
+
 pub fn run_c13(ctx: &mut Ctx) {
     let n = ctx.n(1000, 20_000);
     ctx.family("pipelines", n, c13_case);
+    let ns = ctx.n(160, 3000);
+    ctx.family("sink-first-command", ns, c13_sink_case);
 }
 
 pub fn run_c14(ctx: &mut Ctx) {
